@@ -3,6 +3,7 @@
 #include "hcommon.h"
 #include "GMGPolar/gmgpolar.h"
 #include "Interpolation/interpolation.h"
+#include <cstring>
 #include "InputFunctions/DomainGeometry/circularGeometry.h"
 #include "InputFunctions/DensityProfileCoefficients/poissonCoefficients.h"
 #include <map>
@@ -96,6 +97,52 @@ int main(int argc, char** argv) {
         for (int i = 0; i < f.nr(); i++) for (int j = 0; j < f.ntheta(); j++) worst = std::max(worst, std::fabs(y[f.index(i, j)] - f.radius(i)));
         std::printf("P(r) at r=2: %g (exact 2), max deviation %g\n", y[f.index(1, 0)], worst);
         return worst < 1e-12 ? 0 : 3;
+    }
+    if (mode == "threads") {
+        // K-repro for the transfer operators (C12 / C08): a grid above the 10 000-element threshold with NON-uniform radii and angles;
+        // every operator for 1..32 threads against its one-thread result and against the sequential reference loops
+        Rng rng(seed_from_env() ^ 0x77);
+        std::vector<double> radii = random_radii(rng, 129, 0.1, 1.3, false), angles = random_angles(rng, 128, false);
+        auto p = make_pair(radii, angles, std::nullopt, std::nullopt);
+        const PolarGrid& f = p->fine->grid(); const PolarGrid& c = p->coarse->grid();
+        Level& F = *p->fine; Level& C = *p->coarse;
+        Vector<double> xf(f.numberOfNodes()), xc(c.numberOfNodes());
+        for (int i = 0; i < f.numberOfNodes(); i++) xf[i] = rng.real(-1, 1);
+        for (int i = 0; i < c.numberOfNodes(); i++) xc[i] = rng.real(-1, 1);
+        struct Op { const char* name; bool to_fine; std::function<void(Interpolation&, Vector<double>&)> run; };
+        std::vector<Op> ops = {
+            {"prolongation", true, [&](Interpolation& I, Vector<double>& y) { I.applyProlongation(C, F, y, xc); }},
+            {"restriction", false, [&](Interpolation& I, Vector<double>& y) { I.applyRestriction(F, C, y, xf); }},
+            {"extrapolated_prolongation", true, [&](Interpolation& I, Vector<double>& y) { I.applyExtrapolatedProlongation(C, F, y, xc); }},
+            {"extrapolated_restriction", false, [&](Interpolation& I, Vector<double>& y) { I.applyExtrapolatedRestriction(F, C, y, xf); }},
+            {"injection", false, [&](Interpolation& I, Vector<double>& y) { I.applyInjection(F, C, y, xf); }},
+            {"fmg_interpolation", true, [&](Interpolation& I, Vector<double>& y) { I.applyFMGInterpolation(C, F, y, xc); }},
+        };
+        std::vector<int> one{1, 1};
+        Interpolation I1(one, true);
+        for (auto& op : ops) {
+            const int n = op.to_fine ? f.numberOfNodes() : c.numberOfNodes();
+            Vector<double> ref(n); for (int i = 0; i < n; i++) ref[i] = 4242.0;
+            op.run(I1, ref);
+            double sc = 0; for (int i = 0; i < n; i++) sc = std::max(sc, std::fabs(ref[i]));
+            if (std::string(op.name) == "restriction" || std::string(op.name) == "prolongation") {
+                Vector<double> r0(n); for (int i = 0; i < n; i++) r0[i] = 4242.0;
+                if (op.to_fine) I1.applyProlongation0(C, F, r0, xc); else I1.applyRestriction0(F, C, r0, xf);
+                double d = 0; for (int i = 0; i < n; i++) d = std::max(d, std::fabs(r0[i] - ref[i]));
+                std::printf("PROP transfer-equals-reference %s n=%d diff=%.3e => %s\n", op.name, n, d / sc, d <= 1e-12 * sc ? "ok" : "FAIL the optimised operator differs from the reference loops");
+            }
+            for (int t : {2, 3, 5, 8, 32}) {
+                std::vector<int> th{t, t};
+                Interpolation It(th, true);
+                Vector<double> a(n), b(n); for (int i = 0; i < n; i++) { a[i] = 4242.0; b[i] = -17.0; }
+                op.run(It, a); op.run(It, b);
+                bool repro = std::memcmp(&a[0], &b[0], n * sizeof(double)) == 0;
+                double d = 0; for (int i = 0; i < n; i++) d = std::max(d, std::fabs(a[i] - ref[i]));
+                std::printf("PROP transfer-thread-count %s n=%d threads=%d run-to-run-bitwise=%d diff-to-1-thread=%.3e => %s\n", op.name, n, t, repro ? 1 : 0, d / sc,
+                            !repro ? "FAIL two runs with the same thread count differ" : d > 1e-12 * sc ? "FAIL the result depends on the thread count beyond re-association" : "ok");
+            }
+        }
+        return 0;
     }
     Rng rng(seed_from_env());
     const int npairs = thorough() ? 150 : 24;
